@@ -34,6 +34,7 @@ package grpctunnel
 //@ func timeoutFromHeaders
 //@   witness n = len(mdGet(headers, "grpc-timeout"))
 //@   witness slen = len(mdGet(headers, "grpc-timeout")[len(mdGet(headers, "grpc-timeout"))-1])
+//@   witness dv = decval(mdGet(headers, "grpc-timeout")[len(mdGet(headers, "grpc-timeout"))-1][:len(mdGet(headers, "grpc-timeout")[len(mdGet(headers, "grpc-timeout"))-1])-1])
 //@   witness unit = mdGet(headers, "grpc-timeout")[len(mdGet(headers, "grpc-timeout"))-1][len(mdGet(headers, "grpc-timeout")[len(mdGet(headers, "grpc-timeout"))-1])-1]
 //@   witness c0 = mdGet(headers, "grpc-timeout")[len(mdGet(headers, "grpc-timeout"))-1][0]
 //@   witness c1 = mdGet(headers, "grpc-timeout")[len(mdGet(headers, "grpc-timeout"))-1][1]
